@@ -199,7 +199,68 @@ def plan_c13(ctx):
     return r
 
 
+def plan_c03(ctx):
+    r = standard(ctx, [dict(module='MC_Mesh', workers=12)],
+                 rule='every cell of res 0..3 (quick) / 0..5 (thorough, with 4 points per edge up to res 4): corners snapped to vertex ids, '
+                      'cells added to the half-edge mesh of A5Mesh (rejected if a directed edge is already present), closure + Euler + total '
+                      'area at the end; owner uniqueness probes at res 2..29 around uniform and special points (poles, seams, face '
+                      'vertices). distinct_nontrivial = cells meshed + owner probes',
+                 assumptions=['vertex snapping tolerance 1e-7 of the cell size', 'gap-freeness is claimed only for the exhaustively meshed resolutions'])
+    s = r['summary']
+    r['distinct_nontrivial'] = sum(m['cells'] for m in s.get('meshes', [])) + int(s.get('owner_probes', 0))
+    return r
+
+
+def plan_c04(ctx):
+    r = standard(ctx, [dict(module='MC_Tree')],
+                 rule='ring area of every cell res 0..3 (quick) / 0..5, sampled cells on every face x quintant (first, last, random position) '
+                      'for deeper res, cells at poles / face centres / vertices / seams; 64 segments per edge, Lambert equal-area chart at the '
+                      'cell centre, closed-form authalic latitude. distinct_nontrivial = cells measured',
+                 assumptions=['the area measurement is an instrument reading judged by the spec, not something TLC decides',
+                              'tolerance widened above res 20 by the coordinate-noise bound of f64 degrees'])
+    r['distinct_nontrivial'] = int(r['summary'].get('cells_measured', 0))
+    r['level'] = 'exploration'
+    return r
+
+
+def plan_c11(ctx):
+    r = standard(ctx, [dict(module='MC_Lookup')],
+                 rule='ring scenarios enumerated by MC_Lookup (7 resolution classes x 5 location classes x 7 subdivisions x closed/open) '
+                      'instantiated with real cells, plus every cell of res 0..2 (3) x all subdivisions. distinct_nontrivial = calls',
+                 assumptions=['orientation / containment / pole contact measured by the independent ring oracle of harness/src/geom.rs'])
+    r['distinct_nontrivial'] = int(r['summary'].get('boundary_calls', 0))
+    r['level'] = 'exploration'
+    return r
+
+
+def plan_c01(ctx):
+    r = standard(ctx, [dict(module='MC_Lookup')],
+                 rule='lookup scenarios of MC_Lookup (7 resolution classes x 7 location classes) instantiated with seeded points; points '
+                      'hugging every edge and vertex of sampled cells at relative depths 1e-13..0.3 on both sides. '
+                      'distinct_nontrivial = lookups not answered by the direct estimate (probe or fallback branch)',
+                 assumptions=['containment: fine planar measure through the library projection (band 1e-12) AND independent ring oracle '
+                              'with measured sagitta allowance; a point is outside if either says so beyond its allowance'])
+    s = r['summary']
+    b = s.get('branches_exact_direct_probe_fallback', [0, 0, 0, 0])
+    r['distinct_nontrivial'] = int(b[2]) + int(b[3])
+    r['level'] = 'exploration'
+    return r
+
+
+def plan_c02(ctx):
+    r = standard(ctx, [dict(module='MC_Lookup')],
+                 rule='centre of every cell res 0..4 (quick) / 0..5, of cells on every face x quintant (first/last/random position) at deeper '
+                      'res and of cells at special points; interior points hugging edges/vertices at depths 1e-10..0.5. '
+                      'distinct_nontrivial = centres + deep interior points',
+                 assumptions=['same oracles as C01'])
+    s = r['summary']
+    r['distinct_nontrivial'] = int(s.get('centres', 0)) + int(s.get('interior_points', 0))
+    r['level'] = 'exploration'
+    return r
+
+
 PLANS = {
+    'C01': plan_c01, 'C02': plan_c02, 'C03': plan_c03, 'C04': plan_c04, 'C11': plan_c11,
     'C13': plan_c13,
     'C14': plan_c14,
     'C17': plan_c17,
